@@ -83,24 +83,24 @@ func runC10(c *Ctx) {
 
 var c10MetricsTable = map[string]accSpec{
 	"Requests":       {"sum", "1", ""},
-	"StatusCodes":    {"mapsum", "strconv.Itoa(r.Code)", ""},
-	"BytesOut.Total": {"sum", "r.BytesOut", ""},
-	"BytesIn.Total":  {"sum", "r.BytesIn", ""},
-	"Earliest":       {"min", "r.Timestamp", ""},
-	"Latest":         {"max", "r.Timestamp", ""},
-	"End":            {"max", "(*lib.Result).End(r)", ""},
+	"StatusCodes":    {"mapsum", "decimal(arg0.Code)", ""},
+	"BytesOut.Total": {"sum", "arg0.BytesOut", ""},
+	"BytesIn.Total":  {"sum", "arg0.BytesIn", ""},
+	"Earliest":       {"min", "arg0.Timestamp", ""},
+	"Latest":         {"max", "arg0.Timestamp", ""},
+	"End":            {"max", "(*lib.Result).End(arg0)", ""},
 	"success":        {"sum", "1", "success"},
-	"errors":         {"set", "r.Error", "error"},
-	"Errors":         {"set", "r.Error", "error"},
+	"errors":         {"set", "arg0.Error", "error"},
+	"Errors":         {"set", "arg0.Error", "error"},
 	"call:Latencies": {"delegate", "(*lib.LatencyMetrics).Add(r.Latency)", ""},
 	"call:Histogram": {"delegate", "(*lib.Histogram).Add(r)", "histogram"},
 	"call:init":      {"delegate", "(*lib.Metrics).init()", ""},
 }
 
 var c10LatencyTable = map[string]accSpec{
-	"Total":          {"sum", "latency", ""},
-	"Max":            {"max", "latency", ""},
-	"Min":            {"min", "latency", ""},
+	"Total":          {"sum", "arg0", ""},
+	"Max":            {"max", "arg0", ""},
+	"Min":            {"min", "arg0", ""},
 	"call:estimator": {"delegate", "estimator.Add(latency)", ""},
 	"call:init":      {"delegate", "(*lib.LatencyMetrics).init()", ""},
 }
@@ -219,7 +219,7 @@ func c10Accumulators(c *Ctx, fn *ssa.Function, table map[string]accSpec) {
 			}
 			seen[field] = true
 			key := "accumulator:" + shortFn(fn) + ":" + field
-			if got := describeVal(x.Key); got != spec.src {
+			if got := normDecimal(describeVal(x.Key)); got != spec.src {
 				fail(field, fmt.Sprintf("keyed by %s, want %s", got, spec.src), x)
 				return
 			}
@@ -262,18 +262,18 @@ func c10Accumulators(c *Ctx, fn *ssa.Function, table map[string]accSpec) {
 			cc := x.Common()
 			n := callName(cc)
 			switch {
-			case n == "builtin:append" || n == "builtin:len" || n == "strconv.Itoa" || n == "(time.Time).IsZero" || n == "(time.Time).After" || n == "(time.Time).Before" || n == "(*lib.Result).End":
+			case n == "builtin:append" || n == "builtin:len" || strings.HasPrefix(n, "strconv.") || n == "(time.Time).IsZero" || n == "(time.Time).After" || n == "(time.Time).Before" || n == "(*lib.Result).End":
 				return
 			case n == "(*lib.Metrics).init" || n == "(*lib.LatencyMetrics).init":
 				seen["call:init"] = true
 				c.Pass("accumulator:"+shortFn(fn)+":call:init", rule, "lazy initialisation", c.at(x))
 			case n == "(*lib.LatencyMetrics).Add":
 				seen["call:Latencies"] = true
-				okD := len(cc.Args) == 2 && recvPath(cc.Args[0]) == "Latencies" && describeVal(cc.Args[1]) == "r.Latency" && len(factsAt(x.Block())) == 0
+				okD := len(cc.Args) == 2 && recvPath(cc.Args[0]) == "Latencies" && describeVal(cc.Args[1]) == "arg0.Latency" && len(factsAt(x.Block())) == 0
 				c.Check(okD, "accumulator:"+shortFn(fn)+":call:Latencies", rule, "Latencies.Add(r.Latency) unconditionally", "the latency is not handed unchanged and unconditionally to Latencies.Add", c.at(x))
 			case n == "(*lib.Histogram).Add":
 				seen["call:Histogram"] = true
-				okD := len(cc.Args) == 2 && describeVal(cc.Args[1]) == "r"
+				okD := len(cc.Args) == 2 && describeVal(cc.Args[1]) == "arg0"
 				// only guard: Histogram != nil
 				fs := factsAt(x.Block())
 				okD = okD && len(fs) == 1
@@ -285,7 +285,7 @@ func c10Accumulators(c *Ctx, fn *ssa.Function, table map[string]accSpec) {
 			case cc.IsInvoke() && cc.Method.Name() == "Add" && strings.HasSuffix(describeVal(cc.Value), ".estimator"):
 				seen["call:estimator"] = true
 				// checked in detail by C11; here: unconditional, argument is the parameter
-				okD := len(cc.Args) == 1 && describeVal(cc.Args[0]) == "latency"
+				okD := len(cc.Args) == 1 && describeVal(cc.Args[0]) == "arg0"
 				c.Check(okD, "accumulator:"+shortFn(fn)+":call:estimator", rule, "estimator.Add(float64(latency))", "the estimator is not fed the latency itself", c.at(x))
 			default:
 				fail("call:"+n, "Add calls "+n+", which is not a recognised accumulator delegate", x)
@@ -338,7 +338,7 @@ func condMatches(b *ssa.BasicBlock, cond string) (string, bool) {
 		}
 		for _, f := range fs {
 			bo, ok := f.Cond.(*ssa.BinOp)
-			if !ok || describeVal(bo.X) != "r.Code" {
+			if !ok || describeVal(bo.X) != "arg0.Code" {
 				return "success count depends on something other than r.Code", false
 			}
 		}
@@ -348,7 +348,7 @@ func condMatches(b *ssa.BasicBlock, cond string) (string, bool) {
 		for _, f := range fs {
 			switch x := f.Cond.(type) {
 			case *ssa.BinOp:
-				if describeVal(x.X) == "r.Error" {
+				if describeVal(x.X) == "arg0.Error" {
 					if s, ok := constString(x.Y); ok && s == "" && (x.Op == token.NEQ && f.Val || x.Op == token.EQL && !f.Val) {
 						hasErr = true
 						continue
@@ -922,8 +922,8 @@ func runC11(c *Ctx) {
 		a := adds[0]
 		why := ""
 		ok := true
-		if describeVal(a.Call.Value) != "l.estimator" {
-			ok, why = false, "Add is invoked on "+describeVal(a.Call.Value)+", not on l.estimator"
+		if describeVal(a.Call.Value) != "recv.estimator" {
+			ok, why = false, "Add is invoked on "+describeVal(a.Call.Value)+", not on the receiver's estimator"
 		}
 		cv, isConv := a.Call.Args[0].(*ssa.Convert)
 		if ok && (!isConv || cv.X != ssa.Value(lAdd.Params[1])) {
@@ -1006,7 +1006,7 @@ func runC11(c *Ctx) {
 		if ok && qc.Value != nil {
 			q, _ = constant.Float64Val(constant.ToFloat(qc.Value))
 		}
-		recvOK := describeVal(call.Call.Args[0]) == "m.Latencies"
+		recvOK := describeVal(call.Call.Args[0]) == "recv.Latencies"
 		c.Check(recvOK && math.Abs(q*100-float64(n)) < 1e-9, key, r2, fmt.Sprintf("%s = Quantile(%.2f), tag %q", f.Name(), q, tag), fmt.Sprintf("%s is assigned Quantile(%v) of %s", f.Name(), q, describeVal(call.Call.Args[0])), c.at(store))
 	}
 	if found < 4 {
@@ -1071,7 +1071,7 @@ func runC11(c *Ctx) {
 					ok, why = false, "the ladder is not walked in order by a range index advancing by one"
 				}
 			}
-			if ok && !strings.HasSuffix(describeVal(qcalls[0].Call.Args[0]), "m.Latencies") {
+			if ok && !strings.HasSuffix(describeVal(qcalls[0].Call.Args[0]), ".Latencies") {
 				ok, why = false, "Quantile is taken from "+describeVal(qcalls[0].Call.Args[0])
 			}
 		}
